@@ -290,8 +290,8 @@ int fb_gen_common_c_builder_header(fb_output_t *out)
         "  if (_uvref.type == 0) return _ret; if (_uvref.value == 0) {\\\n"
         "  if (flatcc_builder_start_offset_vector(B)) return _ret;\\\n"
         "  for (_i = 0; _i < _len; ++_i) { _uref = N ## _clone(B, N ## _union_vec_at(vec, _i));\\\n"
-        "    if (!_uref.value || !(flatcc_builder_offset_vector_push(B, _uref.value))) return _ret; }\\\n"
-        "  _uvref.value = flatcc_builder_refmap_insert(B, vec.value, flatcc_builder_end_offset_vector(B));\\\n"
+        "    if ((!_uref.value && _uref.type) || !(flatcc_builder_offset_vector_push(B, _uref.value))) return _ret; }\\\n"
+        "  _uvref.value = flatcc_builder_refmap_insert(B, vec.value, flatcc_builder_end_offset_vector_for_unions(B, vec.type));\\\n"
         "  if (_uvref.value == 0) return _ret; } return _uvref; }\n"
         "\n",
         nsc, nsc);
